@@ -8,6 +8,7 @@ PROPS = [c["property_id"] for c in json.load(open(os.path.join(VERIF, "MANIFEST.
 
 
 def one(ddir):
+    ddir = os.path.abspath(ddir)
     tmp = tempfile.mkdtemp(prefix="refac.", dir=os.environ.get("TMPDIR", "/tmp"))
     try:
         subprocess.run(["rsync", "-a", "--exclude", "_build", "--exclude", ".git", "--exclude", "_b", "/repo/", tmp + "/"], check=True)
